@@ -176,6 +176,7 @@ Section Handlers2.
     repeat match goal with Hs : of_opt_err _ _ = Ok _ |- _ => apply of_opt_err_ok in Hs end.
     repeat match goal with Hs : of_opt _ _ = Ok _ |- _ => apply of_opt_ok in Hs end.
     repeat match goal with Hs : add64 _ _ = Some _ |- _ => apply add64_some in Hs as [-> ?] end.
+    repeat match goal with Hs : deadline _ _ = Some _ |- _ => apply deadline_some in Hs as [-> ?] end.
     match goal with Hb : nfind _ (batches s) = Some ?b, Hu : compute_unbond _ _ _ = Some ?u, Ho : oracle_msgs _ _ = Ok ?om |- _ =>
       exists b, u, om end.
     inversion H; subst s' r; clear H. cbn.
